@@ -195,6 +195,8 @@ pub struct Gen {
     pub offset_counter: u64,
     pub extra_tables: u8,
     pub clock: u64,
+    pub used_all_ff: bool,
+    pub used_all_00: bool,
 }
 
 fn long_value(prefix: char, n: usize, tail: &str) -> String {
@@ -282,14 +284,25 @@ impl Gen {
             offset_counter: 8,
             extra_tables,
             clock: T0 + 100,
+            used_all_ff: false,
+            used_all_00: false,
         }
     }
 
-    /// an event id: random, now and then with extreme leading / trailing bytes (never all 0xff,
-    /// which no hash produces and the range ends of the indexes exclude by construction)
+    /// an event id: random, now and then with extreme leading / trailing bytes (the
+    /// all-0xff and all-zero ids at most once per run)
     fn new_id(&mut self) -> B32 {
         let mut id = self.rng.bytes32();
         match self.rng.below(40) {
+            5 if !self.used_all_ff => {
+                // the largest id there is (forged: the store does not verify ids), once per run
+                self.used_all_ff = true;
+                return [0xff; 32];
+            }
+            6 if !self.used_all_00 => {
+                self.used_all_00 = true;
+                return [0x00; 32];
+            }
             0 => {
                 for b in id.iter_mut().take(8) {
                     *b = 0xff;
